@@ -256,7 +256,7 @@ pub fn prayer_times_dt(
             .map(|x| (*x.0, x.1.map(|y| to_prayer_time(params, *x.0, y)))),
     );
 
-    let imsaak = get_imsaak(params, &top_astro_day, weather);
+    let imsaak = get_imsaak(params, &top_astro_day, weather, hours[&Fajr]);
     times.insert(Imsaak, imsaak);
     times
 }
@@ -274,6 +274,7 @@ fn get_imsaak(
     params: &Params,
     top_astro_day: &TopAstroDay,
     weather: Weather,
+    fajr_hour: Result<PrayerHour, ()>,
 ) -> Result<PrayerTime, ()> {
     use Prayer::*;
 
@@ -291,17 +292,19 @@ fn get_imsaak(
     }
 
     let mut hours = get_hours_adj_ext(&params_adj, top_astro_day, weather);
-    if let Ok(hour) = hours[&Fajr] {
-        if hour.extreme {
-            params_adj = params.clone();
-            *params_adj.minutes.get_mut(&Fajr).unwrap() -= if params.intervals[&Imsaak] == 0. {
-                Params::DEF_IMSAAK_ANGLE
-            } else {
-                params.intervals[&Imsaak]
-            };
+    // Imsaak follows an extreme Fajr: either the Imsaak pass above was adjusted itself, or the
+    // reported Fajr is extreme while the (larger) Imsaak angle could not be adjusted the same way.
+    let fajr_extreme =
+        fajr_hour.map_or(false, |x| x.extreme) || hours[&Fajr].map_or(false, |x| x.extreme);
+    if fajr_extreme {
+        params_adj = params.clone();
+        *params_adj.minutes.get_mut(&Fajr).unwrap() -= if params.intervals[&Imsaak] == 0. {
+            Params::DEF_IMSAAK_ANGLE
+        } else {
+            params.intervals[&Imsaak]
+        };
 
-            hours = get_hours_adj_ext(&params_adj, top_astro_day, weather);
-        }
+        hours = get_hours_adj_ext(&params_adj, top_astro_day, weather);
     }
 
     hours[&Fajr].map(|x| to_prayer_time(&params_adj, Fajr, x))
